@@ -99,6 +99,8 @@ func genMsgOrdinary() *rapid.Generator[string] {
 		// messages that LOOK blank without being empty or made of blank, tab, CR, LF (the statement's "whitespace-only" is the
 		// library's strings.Trim set): vertical tab, form feed, no-break space, next line, a zero-width space
 		rapid.SampledFrom([]string{"\v", "\f", "\u00a0", "\u0085", " \v ", "\u200b", "\u2028", "\x00", " \f\n"}),
+		// ... and messages of control characters only, which are not white space in any reading
+		rapid.SampledFrom([]string{"\a", "\x1b", " \x01 ", "\x7f", "\x00\x00", "\b\b"}),
 	)
 }
 
